@@ -17,7 +17,7 @@ EXPLANATION = (
     "from the caller's own beta; a literal zero is passed only by the *_uninit entry points or paired with a scratch tile "
     "pointer, and one() only on a non-first depth block (guard depth_range.start == 0 false) or after the first gemv kernel "
     "call; (init) gemm_impl's Ok exits are reached only through a full initialisation (init_from / fill / apply / gemv / the "
-    "blocked loop). Numerical correctness of alpha*A*B + beta*C + bias and tile coverage arithmetic are not decided.")
+    "blocked loop); (beta-only-output) in every kernel function a value assigned under a beta test and live outside it derives from an output read or is the zero replacing it, so beta selects/scales only the C term. Numerical correctness of alpha*A*B + beta*C + bias and tile coverage arithmetic are not decided.")
 ASSUMPTIONS = ["names of the beta-carrying parameters (beta, effective_beta, dest_beta, accumulate, MatVecOutput.beta) identify the beta flow; the forward rule ties them to the API's beta",
                "a kernel call writes every element of the tile it is given (used_rows x used_cols): tile coverage is value-level"]
 
@@ -36,6 +36,9 @@ def run(ctx):
     beta_forward(ctx, fb, T)
     init_all(ctx, fb)
     scales_output(ctx, fb)
+    import C17
+    C17.accumulate_only(ctx, fb, 'C16.beta-only-output', lambda f: f.path.startswith(('rten_gemm::kernels', '<rten_gemm::kernels')) and not C17.is_int8_fn(f),
+                        label='f32 kernel functions with a beta test', floor=5)
 
 
 # ---------------------------------------------------------------------------------------------------------------
